@@ -182,8 +182,13 @@ def run(chk):
     # ---- D: approx_model_count DIMACS ---------------------------------
     fa = repo.func(FILE, "approx_model_count")
     pa = func_params(fa.node)
-    cnf_closure = BlockInterp({"__imports__": IMPORTS}).make_closure(repo.func(FILE, "cnf").node)
-    add_asm = BlockInterp({"__imports__": IMPORTS}).make_closure(repo.func(FILE, "add_assumptions").node)
+    from .c01 import _PKG
+    from ..pkgenv import Package
+
+    if id(repo) not in _PKG:
+        _PKG[id(repo)] = Package(repo)
+    cnf_closure = _PKG[id(repo)].func(FILE, "cnf")
+    add_asm = _PKG[id(repo)].func(FILE, "add_assumptions")
     n_d = 0
     specs = {
         "mixed": (SPEC, [None, {"h": True}, {"g": False, "h": True}]),
